@@ -5,6 +5,8 @@ namespace Slicec.Drv
 
 open Slicec
 
+namespace P15
+
 def permsOf {α} : List α → List (List α)
   | [] => [[]]
   | x :: xs => (permsOf xs).flatMap fun p => (List.range (p.length + 1)).map fun i => p.take i ++ [x] ++ p.drop i
@@ -31,6 +33,9 @@ def crossFileErrors : List (String × List SFile) :=
     ("shadow", [sFile "A" [.struct [] [] false "X" []], sFile "A::B" [.struct [] [] false "X" [], .struct [] [] false "U" [fld "x" (tr "X")]],
                 sFile "A::B::C" [.struct [] [] false "V" [fld "x" (tr "X"), fld "y" (tr "::A::X")]]]) ]
 
+end P15
+
+open P15 in
 def genC15 (tier : Tier) (seed : Nat) (o : Out) : IO Unit := do
   -- hand-made cross-file programs in all orders
   for (name, fs) in crossFileErrors do
